@@ -962,6 +962,11 @@ namespace bloch::runtime {
     void RuntimeEvaluator::buildClassTable(Program& program) {
         m_classTable.clear();
         m_genericTemplates.clear();
+        struct BuildingGuard {
+            bool& flag;
+            explicit BuildingGuard(bool& f) : flag(f) { flag = true; }
+            ~BuildingGuard() { flag = false; }
+        } building(m_buildingClassTable);
 
         bool hasExplicitObjectClass = false;
         for (const auto& clsNode : program.classes) {
@@ -1280,7 +1285,11 @@ namespace bloch::runtime {
         if (rc->staticStorage.size() < rc->staticFields.size())
             rc->staticStorage.resize(rc->staticFields.size());
         m_classTable[key] = rc;
-        initStaticFields(rc.get());
+        // An instantiation created while the class table is still being built (the generic base of
+        // a plain class) waits for the table: its initialisers may read statics of classes that
+        // are declared later and not populated yet. execute() initialises every class afterwards.
+        if (!m_buildingClassTable)
+            initStaticFields(rc.get());
         return rc.get();
     }
 
